@@ -186,6 +186,8 @@ class Region:
         for e in pl["p"]:
             if e[0] == "f" and v[0] == "chk":
                 v = ("bin", v[1], v[2], v[3]) if e[1] == 0 else lit(False)
+            elif e[0] == "f" and v[0] == "tuple" and e[1] < len(v[1]):
+                v = v[1][e[1]]          # a pair built in this region (the result of an inlined helper returning `(a, b)`)
             elif e[0] == "f" and v[0] == "sym":
                 return UNK
             else:
@@ -200,6 +202,8 @@ class Region:
             return mk_bin(rv["op"], self._operand(env, rv["l"]), self._operand(env, rv["r"]))
         if k == "un":
             return ("un", rv["op"], self._operand(env, rv["o"]))
+        if k == "agg" and rv.get("agg") == "tuple":
+            return ("tuple", [self._operand(env, o) for o in rv["ops"]])
         return UNK
 
     def paths(self):
